@@ -41,6 +41,10 @@ func fixedCases() []Case {
 		// respBlocks: a block range that ends at 2^32-1
 		msg("fixed-get-blocks-to-max-height", 0x07, nL(nU(fxCur), nU(1<<32-1))),
 		msg("fixed-get-blocks-with-logs-to-max-height", 0x0e, nL(nU(1), nU(1<<32-1))),
+		// ConfirmCache.Push / BlockCache.Add call Clear() while holding their own mutex once they hold more than 10240 heights
+		{S: "c", Kind: "fixed-confirms-for-10300-distinct-heights", Msgs: []Msg{{Code: 0x09, Payload: &Payload{Tree: nL(&Node{Rnd: 32, Seed: 9}, &Node{Ctr: fxCur + 10 + 1}, &Node{Rnd: 65, Seed: 1})}, Rep: 10300}}},
+		{S: "c", Kind: "fixed-orphan-blocks-at-10300-distinct-heights", Msgs: []Msg{{Code: 0x08, Payload: &Payload{Tree: nL(orphanBlock(9, fxCur+10))}, Rep: 10300},
+			{Code: 0x08, Payload: &Payload{Tree: nL(orphanBlock(10, fxCur+20000))}, Rep: 14}}},
 		// GetCorrectMiner panics on instants before 1e10 ms: a block signed by a deputy with time 0 / 1970
 		{S: "d", Kind: "fixed-deputy-signed-block-time-zero", Lazy: "next-block-time-zero-resigned"},
 		{S: "d", Kind: "fixed-deputy-signed-block-time-1970", Lazy: "next-block-time-1970-resigned"},
